@@ -11,6 +11,31 @@ CHECKS = {
             "Every op variant at every operand-width boundary, every sequence over a per-variant menu, every 32-bit operand pattern (thorough; boundary windows quick), every byte string up to 2 (3) bytes and every truncated payload are run through the real serialize/deserialize; VarRemover is driven as a state machine over a 29-op alphabet (every history up to length 5 (6) without merging, BFS to depth 7 (8) with merging on the drained dvi::Values state) and compared after every history with an independent position tracker. Coverage statement, not a sample.",
             "Trusted: the 120-line position tracker reftex::dvipos (bound to the crate's own dvi::Values on every history); DVI grammar restrictions (post_post last, strings <= 255 bytes); positions stay inside i32.",
             "3 C16"),
+    "C04": ("exploration",
+            "bounded-exhaustive enumeration of paragraphs against brute force over every break sequence, plus a per-step check of every logged feasible breakpoint",
+            "Every list of 4 (5) boxes over a 27-item separator menu (glue lattices, penalties incl. forced/forbidden, discretionaries with pre/post/replace material, kerns, math, adjacent discardables) x width sequences x tolerances (incl. > 10000) x parameter deviations x looseness is broken by the real break_line_single_attempt and compared with reftex::kp: Some iff a feasible sequence exists, the returned sequence is feasible and demerit-minimal among ALL sequences, looseness per TeX 875; every feasible breakpoint the implementation logs must carry the badness/penalty/demerits the model computes. 1.4e7 (3e8) instances.",
+            "Trusted: reftex::kp (transliteration of TeX 813-875), self-validated on every run against the 19 TeX-recorded golden logs of the repository (3690 feasible-break records, 280 chosen lines). Non-monotone instances (property's premise) are detected and skipped, counted. Lists with more breakpoints than the bound, leaders/inserts/marks and kerns inside replaced material are outside the alphabet.",
+            "3 C04"),
+    "C12": ("exploration",
+            "bounded-exhaustive enumeration of texts and hand-built lists; reference post_line_break and space-factor model; model-independent conservation invariant",
+            "Every word sequence up to 3 (5) words over a 14-word cmr10 vocabulary (ligatures, kerns, sentence punctuation, explicit hyphens, capitals) x spacings x skip/penalty/sfcode settings x width/indent sequences x hyphenation on/off, and every hand-built list of 3 (4) boxes x 24 fillers (adjacent glue/penalty/kern, discretionaries with post-break and replace material, forced breaks), is typeset by the real code. Checked per case: inter-word glue = TeX 1041-1044 model; hlist spells the words; every line = reference post_line_break (TeX 877-890) on the chosen breakpoints (contents, width, shift, glue set, inter-line penalties); un-breaking the vlist reproduces the hlist; no line begins with discardable material (TeX's reading).",
+            "Trusted: reftex::para, self-validated on every run against 21 TeX-recorded spacing cases and 276 TeX-typeset lines of 15 recorded paragraphs from the repository. Inter-line glue is not compared (property does not state it). Math nodes and infinite-order totals that cancel are outside the alphabet.",
+            "3 C12"),
+    "C15": ("exploration",
+            "bounded-exhaustive enumeration of node lists x target widths against a reference hpack with exact rationals",
+            "Every list of up to 4 (5) nodes over a 24-node menu (chars, ligature, kerns, fixed and running rules, hboxes/vboxes with shifts, penalty, discretionary, glue), every list of 1-3 glues over the full stretch x shrink cross of all four orders with positive, zero and negative amounts, deeper glue-only families and max-dimen values, packed by the real HBox::pack to up to 13 targets at every boundary (natural, +-1sp, -shrink, -shrink+-1sp, +stretch, far) and compared with reftex::kp::hpack: width, height, depth, glue order, and the exact identity natural + ratio*total = width. 6.3e7 (6.4e8) packs.",
+            "Trusted: reftex::kp::hpack (TeX 649-667), self-validated on every run by re-packing 128 TeX-typeset cmr10 lines recorded in the repository. The sign of the ratio of an overfull box is recorded, not judged (HBox has no glue_sign; the property compares printed forms). Glue totals beyond 32 bits are outside TeX's own domain and skipped.",
+            "3 C15"),
+    "C17": ("exploration",
+            "bounded-exhaustive sweeps (all 2^32 fix_words in the thorough tier) against transliterations of TFtoPL/PLtoTF/TeX and brute-force oracles",
+            "fix_word text: every |x| < 2^24 plus windows at powers of two (quick), all 2^32 bit patterns (thorough) printed through the real property-list writer and read back by the real PL parser, text compared with TFtoPL 40-43 and value with PLtoTF 62-66. to_scaled: value x design-size lattice and all 2^25 legal patterns x 6 (233) design sizes against TeX 571-572. compress: every sequence/subset over small lattices x every class limit and 256..300-value families against the brute-force minimal tolerance. next-larger: every partial functional graph on up to 6 (8) characters x existence masks against the cycle-cut walk.",
+            "Trusted: reftex::fix, self-validated against every real number of five corpus property lists and the repository's compress/next-larger unit cases. 0x80000000 (-2048.0, not expressible in PL) is required only not to panic. PLtoTF's excess counter and midpoint rounding differ from compress but stay inside the property's stated bound (recorded as classes).",
+            "3 C17"),
+    "C18": ("exploration",
+            "bounded-exhaustive enumeration of lists (print -> parse identity, format idempotence) and of source strings over a lexeme alphabet (parser totality)",
+            "Every node kind x value boundary set (782 nodes), all ordered pairs, triples over a reduced menu, nesting to depth 2, vertical lists, a glue-ratio sweep around the 16384/20000 clamps, and every source string of up to 5 (6) lexemes over a 16-lexeme alphabet plus well-formed program pieces, string-escape bodies, number lexemes in every context and a function x parameter x value matrix are run through the real printer, parser and formatter: parse(print(list)) == list, format idempotent and meaning-preserving, every source yields a list or errors whose spans lie inside the source, never a panic. 2.0e6 (2.8e7) cases.",
+            "Trusted: the generators of reftex::boxl; domain as the property states it (no double quote, normal kerns). Known finding D20 (glue ratio >= 16384 prints but does not parse) is matched by predicate on the case + exact adjusted expectation.",
+            "3 C18"),
 }
 
 NOT_YET = "check not built yet in this revision (planned, see DESIGN.md section 3)"
@@ -47,7 +72,7 @@ def main():
         "hooks": {
             "guard": "--cfg texcraft_verif_sched",
             "enable": "RUSTFLAGS='--cfg texcraft_verif_sched' when building /verif/harness-sched (only the texlang crate, only for the C20 thread-schedule engine); every other check builds /repo with the guard off",
-            "baseline_off_cmd": "cd /repo && cargo nextest run --workspace --no-fail-fast --test-threads 8 --offline || cargo test --workspace --no-fail-fast --offline",
+            "baseline_off_cmd": "cd /repo && cargo nextest run --workspace --no-fail-fast --tool-config-file pb:/w/lib/nextest.toml --profile pb --test-threads 8 --offline || cargo test --workspace --no-fail-fast --offline",
             "source_commits": hooks_commits,
             "add_only": True,
         },
